@@ -197,6 +197,30 @@ func enumC04(c *oracleCfg, chk func(fam, in string)) {
 			chk("ctx-event", p+"on"+strings.ToLower(e.Name)+"=x")
 		}
 	}
+	// a quote as the very first byte, immediately followed by the attribute (the quote closes the value the input
+	// was injected into; no separator, no second quote): `"onerror=x`, `'style=x`, `` `href=javascript:x ``
+	for _, q := range []string{"\"", "'", "`"} {
+		for _, e := range t.BlackEvents {
+			chk("quote0", q+"on"+strings.ToLower(e.Name)+"=x")
+		}
+		for _, v := range []string{"style=x", "href=javascript:x", "onerror=alert(1)", "ONLOAD=x", "xmlns=x", "onerror=x>", "/onerror=x", " onerror=x"} {
+			chk("quote0", q+v)
+			chk("quote0", q+v+" y")
+		}
+	}
+	// character references padded with leading zeros (browsers ignore any number of them), with and without ';'
+	for _, a := range []string{"href", "src", "action"} {
+		for z := 0; z <= 16; z++ {
+			zs := strings.Repeat("0", z)
+			for ri, ref := range []string{"&#" + zs + "106", "&#x" + zs + "6a", "&#X" + zs + "6A"} {
+				refA := []string{"&#" + zs + "97", "&#x" + zs + "61", "&#X" + zs + "61"}[ri]
+				chk("zero-pad", "<a "+a+"=\""+ref+";avascript:x\">")
+				chk("zero-pad", "<a "+a+"="+ref+";avascript:x>")
+				chk("zero-pad", "<a "+a+"='jav"+refA+";script:x'>")
+				chk("zero-pad", "<a "+a+"='jav"+refA+"script:x'>") // no ';': the next byte `s` ends the number in both bases
+			}
+		}
+	}
 	// separator runs: every pair of HTML white-space bytes (and `/`) between the tag and the attribute,
 	// and white space on either side of `=`, for an event handler, `style` and a script URL
 	ws := []string{" ", "\t", "\n", "\x0c", "\r"}
